@@ -421,7 +421,9 @@ func (txn MapTxn[K, V]) Commit() (m Map[K, V]) {
 		_, kv, _ := iter.Next()
 		m.singleton = &kv
 	default:
-		m.tree = txn.txn.Commit()
+		// The MapTxn can be used again after Commit, so do not hand the
+		// underlying transaction over to the tree for reuse by the next Txn().
+		m.tree = txn.txn.commit(false)
 		m.hasTree = true
 	}
 	if m.singleton != nil {
